@@ -6,6 +6,10 @@
 (* A guest is a set of functions; a function is a sequence of nodes        *)
 (*    work | back(k) | call(f) | calli(f) | rcall(f) | rcalli(f) |         *)
 (*    host(f) (a host function that calls back into f) | ret               *)
+(*    hostd(f) the same, the callback runs under a DERIVED context with    *)
+(*             its own deadline (whose expiry closes the module as well)   *)
+(*    hosts(f) the same, but the host function swallows the callback's     *)
+(*             error and returns normally: the caller continues            *)
 (* Each function belongs to a module ("app" is the module whose export     *)
 (* was called; "lib" is another instance).  The environment closes "app"   *)
 (* (Cancel).  An exit-code CHECK returns ExitError when the polled module  *)
@@ -36,7 +40,7 @@ Top == stack[Len(stack)]
 Node == Prog[Top.fn].body[Top.pc]
 ModOf(f) == Prog[f].mod
 
-Init == stack = <<[fn |-> "main", pc |-> 1, cm |-> "app"]>> /\ cancelled = FALSE /\ done = "no"
+Init == stack = <<[fn |-> "main", pc |-> 1, cm |-> "app", sw |-> FALSE]>> /\ cancelled = FALSE /\ done = "no"
 
 Cancel == ~cancelled /\ done = "no" /\ cancelled' = TRUE /\ UNCHANGED <<stack, done>>
 
@@ -45,18 +49,26 @@ Polled == IF Polls = "entry" THEN "app" ELSE Top.cm
 CheckFires == cancelled /\ Polled = "app"       \* only "app" is ever closed
 
 Advance == stack' = [stack EXCEPT ![Len(stack)].pc = @ + 1]
-Push(f) == IF Len(stack) >= Ceiling THEN done' = "overflow" /\ UNCHANGED stack
-           ELSE stack' = Append([stack EXCEPT ![Len(stack)].pc = @ + 1], [fn |-> f, pc |-> 1, cm |-> ModOf(Top.fn)]) /\ UNCHANGED done
-Replace(f) == stack' = [stack EXCEPT ![Len(stack)] = [fn |-> f, pc |-> 1, cm |-> Top.cm]]
+PushSw(f, sw) == IF Len(stack) >= Ceiling THEN done' = "overflow" /\ UNCHANGED stack
+                 ELSE stack' = Append([stack EXCEPT ![Len(stack)].pc = @ + 1], [fn |-> f, pc |-> 1, cm |-> ModOf(Top.fn), sw |-> sw]) /\ UNCHANGED done
+Push(f) == PushSw(f, FALSE)
+Replace(f) == stack' = [stack EXCEPT ![Len(stack)] = [fn |-> f, pc |-> 1, cm |-> Top.cm, sw |-> Top.sw]]
+(* a check that fires ends the innermost Go->guest entry with the exit error; a host function that swallows it lets its
+   caller continue (the module stays closed, so the caller's own checks fire next) *)
+SwFrames == {j \in 1..Len(stack) : stack[j].sw}
+ExitHere == IF SwFrames = {} THEN done' = "exit" /\ UNCHANGED stack
+            ELSE LET j == CHOOSE x \in SwFrames : \A y \in SwFrames : y <= x IN
+                 stack' = SubSeq(stack, 1, j - 1) /\ UNCHANGED done
 
 Step ==
   /\ done = "no"
   /\ LET n == Node IN
      CASE n.k = "work" -> Advance /\ UNCHANGED done
-       [] n.k = "back" -> IF CheckLoops /\ CheckFires THEN done' = "exit" /\ UNCHANGED stack
+       [] n.k = "back" -> IF CheckLoops /\ CheckFires THEN ExitHere
                           ELSE stack' = [stack EXCEPT ![Len(stack)].pc = n.a] /\ UNCHANGED done
-       [] n.k \in {"call", "calli", "host"} -> Push(n.a)
-       [] n.k \in {"rcall", "rcalli"} -> IF CheckTailCalls /\ CheckFires THEN done' = "exit" /\ UNCHANGED stack
+       [] n.k \in {"call", "calli", "host", "hostd"} -> Push(n.a)
+       [] n.k = "hosts" -> PushSw(n.a, TRUE)
+       [] n.k \in {"rcall", "rcalli"} -> IF CheckTailCalls /\ CheckFires THEN ExitHere
                                           ELSE Replace(n.a) /\ UNCHANGED done
        [] n.k = "ret" -> IF Len(stack) = 1 THEN done' = "returned" /\ UNCHANGED stack
                          ELSE stack' = SubSeq(stack, 1, Len(stack) - 1) /\ UNCHANGED done
